@@ -18,32 +18,32 @@ CLAIMED = {
         note="Trusted: TLC, harness/uni, universe/store.json. Results outside the universe are mapped to id 0 and rejected."),
     "C09": dict(
         cat="model_checking", ref="DESIGN 5/C09",
-        technique="TLA+ Lookups.tla (Window, Filter, Page) as oracle; seeded/full product of methods x arguments x windows x filters x paging recorded from the real store and validated by TLC; Page lemmas model-checked",
-        text="For several graph contents a seeded sample (quick) or large product (thorough) of method x arguments x time window (incl. equal/inverted/one-sided) x filter operation/field x LatestAnchor x (MaxElements, Offset) is executed; unpaged results are judged as bags against Window/Filter of the model, pages against the recorded unpaged sequence of the same call; determinism by issuing each unpaged call twice.",
+        technique="TLA+ Lookups.tla (Window, Filter, Page) as oracle; seeded/full product of methods x arguments x windows x filters x paging recorded from the real store and validated by TLC; Page lemmas model-checked; second part: SELECTs with FILTER clauses (latest / isTemporal / isImmutable on predicate and object bindings and aliases) executed through the real engine and judged by TLC against BQLSemantics.tla FilteredData (the filter functions reached through bql/planner/filter and the planner)",
+        text="For several graph contents a seeded sample (quick) or large product (thorough) of method x arguments x time window (incl. equal/inverted/one-sided) x filter operation/field x LatestAnchor x (MaxElements, Offset) is executed; unpaged results are judged as bags against Window/Filter of the model, pages against the recorded unpaged sequence of the same call; determinism by issuing each unpaged call twice. Second part: 2.5*10^3 (quick) / 6*10^4 (thorough) SELECTs with one or two FILTER clauses over 1-3 graphs (filters apply per graph lookup), with global time bounds; cases the documentation leaves open (FilterOpen) are counted, not judged.",
         note="LatestAnchor combined with a window and requests the driver may reject are left open (counted). Trusted: TLC, harness/uni."),
     "C03": dict(
         cat="model_checking", ref="DESIGN 5/C03, Appendix A",
-        technique="TLA+ BQLSemantics.tla (Match/Solutions set comprehension) as executable oracle: generated SELECT statements executed through the real lexer/parser/planner, every result validated row by row by TLC (QueryTrace.tla)",
+        technique="TLA+ BQLSemantics.tla (Match/Solutions set comprehension) as executable oracle: generated SELECT statements executed through the real lexer/parser/planner, every result validated row by row by TLC (QueryTrace.tla); outer SELECT aliases that shadow or swap pattern bindings; constant clauses whose AS alias repeats a binding (joins that cannot be pushed into the lookup)",
         text="Thousands (quick) to 150k (thorough) generated SELECTs of the conjunctive fragment - constants/bindings in every position, repeated bindings, anchor bindings, bounds, AS/ID/TYPE/AT aliases, 1-4 clauses, 1-3 FROM graphs (disjoint and overlapping), global time bounds, other-zone spellings - are run on the real engine over contents drawn from a 31-triple near-miss universe; TLC recomputes the solution bag and compares cell by cell (multiplicity open only where the property leaves it open). Rejected cases are re-evaluated under named Layer B deviations to attribute them to known findings.",
         note="Trusted: TLC, lib/bqlgen.py rendering (cross-checked against the parsed pattern dumped by the driver), harness/bqlu projection by accessors. Random generation seeded by VERIF_SEED, not exhaustive."),
     "C10": dict(
         cat="model_checking", ref="DESIGN 5/C10",
-        technique="same oracle (BQLSemantics.tla Step with OPTIONAL as left outer join) on generated patterns with 1-2 OPTIONAL clauses in any position after the first; TLC trace validation",
+        technique="same oracle (BQLSemantics.tla Step with OPTIONAL as left outer join) on generated patterns with 1-2 OPTIONAL clauses in any position after the first; TLC trace validation; plus table level: LeftOptionalJoin / DotProduct / AppendTable / ProjectBindings performed on real bql/table tables by tabledrv and validated by TLC against TableAlg.tla (TableTrace.tla); lemma JoinKeepsLeft model-checked (TableAlgMC)",
         text="Generated patterns mandatory;OPTIONAL[;OPTIONAL] with the optional clause sharing 0..n bindings, fully specified with/without alias, matching nothing/some/all rows, extractions that cannot apply; TLC checks that every preceding solution appears once per compatible match or once NULL-extended.",
         note="Patterns where an OPTIONAL clause shares a binding only introduced by an earlier OPTIONAL clause are counted as open, not judged."),
     "C11": dict(
         cat="model_checking", ref="DESIGN 5/C11",
-        technique="TLA+ Group/AggRow operators (BQLSemantics.tla) applied by TLC to the RECORDED ungrouped rows of the same pattern and compared with the recorded grouped rows",
+        technique="TLA+ Group/AggRow operators (BQLSemantics.tla) applied by TLC to the RECORDED ungrouped rows of the same pattern and compared with the recorded grouped rows; plus table level: Table.Reduce with count / count distinct / sum accumulators on real tables validated by TLC against TableAlg.tla IsReduce",
         text="For generated patterns and every choice of 1-2 grouping bindings and 1-3 aggregates (count, count distinct, sum) the grouped query and its ungrouped base are both executed; TLC requires exactly one row per distinct key combination (mixed kinds in key columns included) with the right count / distinct count / sum, and an empty result for an empty base.",
         note="Sums are judged only for columns of one numeric kind (quarters, |v|<2^30: TLC has 32-bit integers and no floats)."),
     "C12": dict(
         cat="model_checking", ref="DESIGN 5/C12",
-        technique="TLA+ Sorted/Permutation/TopN operators evaluated by TLC on recorded plain, ordered and limited results of the same query; rank tables of printed forms and instants computed independently in lib/bqlu.py",
+        technique="TLA+ Sorted/Permutation/TopN operators evaluated by TLC on recorded plain, ordered and limited results of the same query; rank tables of printed forms and instants computed independently in lib/bqlu.py; plus table level: Table.Sort and Table.Limit on real tables validated by TLC against TableAlg.tla (IsSort, Limit); LimitLemmas / SortKeyLemma model-checked",
         text="Generated queries (incl. GROUP BY outputs) are run plain, with ORDER BY (1-3 keys, ASC/DESC, repeated keys) twice, and with LIMIT 0..50; TLC checks permutation, sortedness by kind (numeric, chronological incl. other zones and sub-second precision, printed form), first-min(n,N)-rows, determinism for total orders; statements with a negative / non-int64 LIMIT must be rejected.",
         note="Key columns holding several kinds are not judged. Literal type names in upper case are left to C08/C16."),
     "C13": dict(
         cat="model_checking", ref="DESIGN 5/C13",
-        technique="TLA+ Eval over the grammar's own expression tree (BQLSemantics.tla) applied by TLC to the recorded rows without HAVING and compared with the recorded rows with it",
+        technique="TLA+ Eval over the grammar's own expression tree (BQLSemantics.tla) applied by TLC to the recorded rows without HAVING and compared with the recorded rows with it; plus table level: Table.Filter on real tables validated by TLC against TableAlg.tla; FilterLemmas model-checked",
         text="Random expression trees (NOT / AND / OR / parentheses, depth <= 3) over comparisons of bindings with int64, float64, text, bool, node, predicate, time constants (other zones) and other bindings, also over aggregate outputs; TLC requires exactly the rows for which the expression is true, unchanged.",
         note="< and > on nodes/predicates/bools, and binding-vs-binding of different kinds, are not judged; statements rejected by the parser/expression builder are not judged."),
     "C14": dict(
@@ -61,7 +61,7 @@ CLAIMED = {
         text="All table facts (first elements are tokens and pairwise distinct per rule, empty alternative last, referenced rules exist, reachable, productive by least fixpoint, plain = semantic table) are checked for the whole table of the current tree (73 rules / 178 alternatives). For every expansion step of the derivation machine (stack <= 20/26, both alternative orders) a sentence is concretised, lexed and parsed by the real parser; TLC requires accept = Accepts(kinds) and the probed (rule, alternative) sequence = the alternatives LL1!Run takes; every alternative (also the empty ones) must be taken by an accepted run. Complete for the table; witnesses bounded by the stack bound.",
         note="Trusted: TLC, grammardump (exported accessors; element is a token iff Symbol()==''), harness/gram concretiser (only proposes texts; judged on kinds as lexed; a token kind it cannot write raises INFRA, not a verdict)."),
     "C18": dict(cat="model_checking", ref="DESIGN 5/C18",
-        technique="LL1.tla predictive recogniser (Accepts) on the generated table as oracle; TLC-generated sentences, systematic (expected token x offered kind) substitutions, mutations, trailing tokens and all kind sequences <= 3 parsed by the real plain and semantic parsers; histories (every cut position x probes, random) on one parser vs a fresh one; all events validated by TLC (ParserTrace.tla); deviations attributed by rebuilding hook closures on the real code",
+        technique="LL1.tla predictive recogniser (Accepts) on the generated table as oracle; TLC-generated sentences, systematic (expected token x offered kind) substitutions, mutations, trailing tokens and all kind sequences <= 3 parsed by the real plain and semantic parsers; histories (every cut position x probes, random) on one parser vs a fresh one; all events validated by TLC (ParserTrace.tla); deviations attributed by rebuilding hook closures on the real code; long histories (tens of thousands of mostly rejected statements on ONE parser, probes in between)",
         text="plain accept = Accepts(kinds as lexed) and semantic accept => Accepts for sentences, 10^4 substitutions/mutations, statements followed by more tokens and all token-kind sequences up to length 3 (quick: length 2 + 2% sample); the outcome and extracted meaning (type, graphs, data, clauses, filters, projections, group/order, HAVING tokens, bounds, limit, construct clauses) of a probe statement after every history (40/160 statements cut at every token, whole, random histories <= 6) equals its meaning on a fresh parser.",
         note="Deviations are classified mechanically: AcceptsPrefix evaluated by TLC; closure family found by delta debugging on the real hooks. Probes whose fresh meaning is not deterministic are open. Trusted: TLC, harness/gram, meaning projection in parsedrv."),
     "C16": dict(cat="model_checking", ref="DESIGN 5/C16",
@@ -69,11 +69,11 @@ CLAIMED = {
         text="Every string of length <= 4/5 over a 12-symbol alphabet (22 621 / 271 453 inputs) with channel capacities 0,1,2,8, seeded random and mutated statements, grammar-generated statements with letter-case, white-space and compact-spacing variants, and ~490 printed nodes/predicates/bounds/literals/bindings/blank nodes built with the real constructors and printers; watchdog turns non-termination into an event. Exact tokenisation is deliberately not specified.",
         note="Known findings: text ending in backslash, id starting with @[ or ^^type:, node type containing '>'. White space between a filter function and '(' is treated as part of the notation (the repository's tests require 'latest (' to be rejected). Values with embedded quotes are open."),
     "C08": dict(cat="model_checking", ref="DESIGN 5/C08",
-        technique="RunTrace.tla outcome/goroutine monitor validating, by TLC, runs of the real pipeline (lexer -> semantic parser -> planner -> executor, as run.BQL) recorded in-process (recover, settled goroutine stacks filtered to badwolf/) and per child process (panics in other goroutines, log.Fatalf); inputs from the TLC derivation machine + hostile concretisations + all token-kind sequences <= 3 + random bytes; LexPipe.tla (lexer || channel || parser) model-checked for the leak predicate",
+        technique="RunTrace.tla outcome/goroutine monitor validating, by TLC, runs of the real pipeline (lexer -> semantic parser -> planner -> executor, as run.BQL) recorded in-process (recover, settled goroutine stacks filtered to badwolf/) and per child process (panics in other goroutines, log.Fatalf); inputs from the TLC derivation machine + hostile concretisations + all token-kind sequences <= 3 + random bytes; LexPipe.tla (lexer || channel || parser) model-checked for the leak predicate; plus 'sink' statements (lib/bqlsink.py): semantically plausible statements combining every feature (joins, OPTIONAL, bound predicates written with bindings, FILTER, GROUP BY with aggregates over any binding, HAVING, ORDER BY, LIMIT, CONSTRUCT/DECONSTRUCT, data statements) on an empty, a small and a large store (more rows than twice the processors)",
         text="Every run must end in exactly one of table / error, never panic, time out (10 s watchdog, re-run alone) or kill the process, and leave no goroutine with engine frames. 1.5*10^4 (quick) / 3.3*10^5 (thorough) texts: grammar-generated statements with plain and hostile literals/nodes/predicates/bounds/times (one hostile token at a time and random), prefixes, prefix + one token, token mutations, statement + statement, all kind sequences up to length 3 (quick: 2% sample), random bytes and byte mutations, against a populated and an empty memory store.",
         note="Level model_checking for the pipeline model and trace validation, exploration for raw bytes (evidence carries both key sets). The two panics first found here (blob literal shorter than 2 chars, anchor of one double quote) were repaired in the value parsers (fixed: entries). Driver failures are C20."),
     "C19": dict(cat="model_checking", ref="DESIGN 5/C19",
-        technique="TLA+ Memo.tla (per-graph cache, key incl. offset, CheckCache ; Replay | Forward ; Fill, Clear ; ForwardWrite) model-checked by TLC for Transparent and used to enumerate ALL schedules of 1 writer + 1-2 readers; every schedule forced on the real memoizer through verifYield gates (build tag verif) and the recorded invoke/return history validated by TLC (MemoTrace.tla) against the wrapped store's own answers; plus lock-step sequential histories and a cache-key sweep",
+        technique="TLA+ Memo.tla (per-graph cache, key incl. offset, CheckCache ; Replay | Forward ; Fill, Clear ; ForwardWrite) model-checked by TLC for Transparent and used to enumerate ALL schedules of 1 writer + 1-2 readers; every schedule forced on the real memoizer through verifYield gates (build tag verif) and the recorded invoke/return history validated by TLC (MemoTrace.tla) against the wrapped store's own answers; plus lock-step sequential histories and a cache-key sweep; the key sweep includes windows whose bounds differ from an anchor by less than a second",
         text="(i) sequential lock-step histories (memoized store vs plain twin) over all lookup methods, option shapes incl. window/filter/LatestAnchor/MaxElements/Offset, Exist, Triples, two handles of one graph, failing forwarded reads; (ii) every schedule TLC enumerates at the grain CheckCache/Forward/Fill/Clear/ForwardWrite/Return for 1 writer and 1-2 readers (same/different key, same/second handle) is forced on the real code; (iii) key sweep: pairs of requests differing in exactly one argument or option must not share a cached answer. TLC requires every answer to equal the wrapped graph's answer at an instant inside the call and never one older than the last returned write. Exhaustive over the schedules of the bounded model, sampled for sequential histories.",
         note="Needs the verifYield hook (storage/memoization/verif_on.go). Each named deviation of Memo.tla (offset not in key, per-handle cache, fill after clear, memoized failed read) is model-checked to violate Transparent as a non-vacuity control. Trusted: TLC, harness/uni, the gate scheduler of memodrv."),
     "C07": dict(cat="model_checking", ref="DESIGN 5/C07",
@@ -89,11 +89,11 @@ CLAIMED = {
         text="All strings up to length 3 over an 18-character delimiter alphabet as node id / node type / predicate id (immutable and temporal) / text, alone, as object and (length <=2) inside triples; numbers, anchors (zones, sub-second, year boundaries), blobs, composite values and graphs (<=30 triples) from boundary sets and seeded random; TLC requires same kind, equal components (anchors equal as instants with the same offset), identical second print; graphs: same triple set and both counts equal its size.",
         note="Documented domain per docs/temporal_graph_modeling.md; ids with white space, node types containing '<' or '>', non-UTF-8 ids and sub-minute zone offsets are left open (counted). Known findings: text literal containing a line break in WriteGraph/ReadIntoGraph."),
     "C06": dict(cat="model_checking", ref="DESIGN 5/C06",
-        technique="TLA+ Identity.tla (UUID(v) represented by the byte string fed to SHA1; Injective/Functional/Total) evaluated by TLC over all same-kind pairs of a 175-value near-miss universe to produce colliding/undefined candidates; valuedrv executes all pairs and candidates on the real code (UUID equality, Triple.Equal, Graph.Exist vs component equality; UUID twice, in 4 goroutines and in a child process) and TLC validates every recorded pair (ValueTrace.tla)",
+        technique="TLA+ Identity.tla (UUID(v) represented by the byte string fed to SHA1; Injective/Functional/Total) evaluated by TLC over all same-kind pairs of a 191-value near-miss universe to produce colliding/undefined candidates; valuedrv executes all pairs and candidates on the real code (UUID equality, Triple.Equal, Graph.Exist vs component equality; UUID twice, in 4 goroutines and in a child process) and TLC validates every recorded pair (ValueTrace.tla); Identity.tla Variants: for six plausible other encodings TLC lists the universe pairs that tell each from the current design (INFRA when a variant has none); UUIDs of different values computed by eight goroutines at once",
         text="All same-kind pairs of the universe (nodes whose type/id boundary shifts, ids equal to types, predicates differing only in kind/instant/zone, literals of different types with equal encodings, int64/float64 boundary values, objects boxing a node/predicate/literal with coinciding bytes, triples differing in one component) plus boundary sets and seeded near-miss pairs: TLC requires equal UUID <=> same kind and equal components (anchors as instants), Equal likewise, UUID stable across calls/goroutines/processes and defined (no panic) for every constructible value.",
         note="SHA1 is treated as injective. +0/-0 float64 pairs are left open. Known findings: node type/id boundary (node.TestUUID pins the formula), anchors 2^64 ns apart (UnixNano wraps)."),
     "C15": dict(cat="model_checking", ref="DESIGN 5/C15",
-        technique="TLA+ ValueText.tla ParsersTotal (the slice expressions of the node/predicate/literal/object/triple parsers as partial functions) evaluated exhaustively by TLC over symbol strings up to length 4-6 to predict out-of-range inputs; valuedrv runs the candidates, all short strings over delimiter alphabets, token sequences, mutations of printed values, random strings and files through the real parsers and ReadIntoGraph under recover/watchdog; TLC validates every event (ValueTrace.tla): value xor error, well-formed, reprint accepted as an equal value, reader loads exactly the prefix before the first malformed line",
+        technique="TLA+ ValueText.tla ParsersTotal (the slice expressions of the node/predicate/literal/object/triple parsers as partial functions) evaluated exhaustively by TLC over symbol strings up to length 4-6 to predict out-of-range inputs; valuedrv runs the candidates, all short strings over delimiter alphabets, token sequences, mutations of printed values, random strings and files through the real parsers and ReadIntoGraph under recover/watchdog; TLC validates every event (ValueTrace.tla): value xor error, well-formed, reprint accepted as an equal value, reader loads exactly the prefix before the first malformed line; literals, objects and triples also parsed with the bounded literal builder (texts and blobs shorter than, equal to and longer than the bound)",
         text="~10^5 (quick) parser calls: all strings up to length 3 over the 18-character delimiter alphabet for each of the 5 parsers, up to length 4 over 7-character per-parser alphabets, token sequences up to 4 tokens, truncate/delete/duplicate/inject mutations of printed values, seeded random strings; files with malformed lines at every position, blank lines, long lines (>64 KiB), for ReadIntoGraph. A 15 s watchdog turns non-termination into an event.",
         note="A line is malformed when the real triple.Parse rejects it. A parsed value whose components the exported constructors refuse is left open (counted)."),
 }
